@@ -75,7 +75,13 @@ class SourceSet:
                 raise AnchorMissing(f"{r} does not parse: {e}") from e
             if not os.environ.get("VERIF_NO_INLINE"):
                 from .normalise import builder_loops, format_calls, group_aliases, inline_helpers
-                t = format_calls(builder_loops(group_aliases(inline_helpers(t))))
+                for step in (inline_helpers, group_aliases, builder_loops, format_calls):
+                    try:
+                        t2 = step(t)
+                        compile(ast.fix_missing_locations(t2), r, "exec")      # a normal form that is not valid Python is discarded
+                        t = t2
+                    except Exception:
+                        pass            # normalisation is an aid, never a reason to fail: the rules then see the source form
             self._ast[r] = t
         return self._ast[r]
 
